@@ -24,7 +24,7 @@ pub struct Site {
 }
 
 pub const ROOT_SITES: [Site; 11] = [
-    Site { name: "textures", levels: &["none", "one", "many"] },
+    Site { name: "textures", levels: &["none", "one", "non_ascii", "many"] },
     Site { name: "materials", levels: &["none", "one", "many"] },
     Site { name: "groups", levels: &["none", "one", "many", "dups"] },
     Site { name: "portals", levels: &["none", "one", "many"] },
@@ -121,6 +121,7 @@ pub fn root_textures(l: u8) -> Vec<String> {
     match l {
         0 => vec![],
         1 => vec!["a.blp".into()],
+        2 => vec!["tex\\m\u{fc}hle.blp".into(), "b.blp".into()],
         _ => vec![
             "dungeons\\textures\\wall.blp".into(),
             "dungeons\\textures\\wall_s.blp".into(),
